@@ -749,7 +749,7 @@ def rule_preproc(ctx):
     # beat: both sides of every metric call come from trim_beats applied through filter_kwargs
     em = models["beat"]
     trims = [c for c in em.calls if tm.callee_name(c.fn) == "beat.trim_beats"]
-    need(len(trims) >= 2, "C03.PREPROC", "beat.evaluate no longer trims both sides")
+    need(len(trims) >= 1, "C03.PREPROC", "beat.evaluate no longer calls trim_beats")
     for c in trims:
         fwd = c.via_filter and any(n == "**" for n, _ in c.kw)
         yield ob("C03.PREPROC", em.func, "beat.evaluate:trim_beats@%d" % _ordinal(em.summ, c), fwd, "trim_beats is called through filter_kwargs with **kwargs (min_beat_time honoured)", node=c.node)
